@@ -248,15 +248,21 @@ class RandInfoBuilder(ModelVisitor,RandIF):
         if RandInfoBuilder.EN_DEBUG:
             print("--> RandInfoBuilder::visit_constraint_soft")
             
-        # Update the priority of this constraint
-        c.priority += self._soft_priority
+        # Update the priority of this constraint. A soft constraint 
+        # that is visited several times (dynamic constraint referenced 
+        # more than once) takes the priority of its latest position
+        c.priority = self._soft_priority
         self._soft_priority += 1
 
-        if self._pass == 1 and len(self._soft_cond_l) > 0:
-            # AND all soft conditions together
-            and_cond = self._soft_cond_l[0]
+        # Visit the expression first: it selects the randset
+        super().visit_constraint_soft(c)
+
+        if self._pass == 1 and len(self._soft_cond_l) > 0 and self._active_randset is not None:
+            # AND all soft conditions together (as Boolean terms)
+            and_cond = self._soft_guard(self._soft_cond_l[0])
             for soft_cond in self._soft_cond_l[1:]:
-                and_cond = ExprBinModel(and_cond, BinExprType.And, soft_cond)
+                and_cond = ExprBinModel(and_cond, BinExprType.And, 
+                                        self._soft_guard(soft_cond))
 
             # TODO Is it okay to add priority attr to root Constraint so
             #      add_constraint can detect them and randomize can sort
@@ -264,11 +270,16 @@ class RandInfoBuilder(ModelVisitor,RandIF):
             soft_implies = ConstraintImpliesModel(and_cond, [c])
             soft_implies.priority = c.priority
             self._active_randset.add_constraint(soft_implies)
-
-        super().visit_constraint_soft(c)
         
         if RandInfoBuilder.EN_DEBUG:
             print("<-- RandInfoBuilder::visit_constraint_soft")
+
+    def _soft_guard(self, cond):
+        """A guard wider than one bit holds when it is non-zero"""
+        if cond.width() > 1:
+            return ExprBinModel(cond, BinExprType.Ne, 
+                                ExprLiteralModel(0, False, cond.width()))
+        return cond
 
     def visit_constraint_if_else(self, c : ConstraintIfElseModel):
         self.visit_constraint_stmt_enter(c)
@@ -276,7 +287,12 @@ class RandInfoBuilder(ModelVisitor,RandIF):
         c.cond.accept(self)
         c.true_c.accept(self)
         if c.false_c != None:
-            self._soft_cond_l[-1] = ExprUnaryModel(UnaryExprType.Not, c.cond)
+            if c.cond.width() > 1:
+                # The else branch of a multi-bit condition holds when it is zero
+                self._soft_cond_l[-1] = ExprBinModel(c.cond, BinExprType.Eq, 
+                                            ExprLiteralModel(0, False, c.cond.width()))
+            else:
+                self._soft_cond_l[-1] = ExprUnaryModel(UnaryExprType.Not, c.cond)
             c.false_c.accept(self)
         self._soft_cond_l.pop()
         self.visit_constraint_stmt_leave(c)
